@@ -44,13 +44,13 @@ pub fn run_history_list(
 pub fn catalogue(callbacks_only: bool) -> Vec<History> {
     use super::grids::{N_STATES, state_prefix};
     let mut out = Vec::new();
-    let it = |kind, items: &[&str], slots: &[u8], hint| IterSpec { kind, items: items.iter().map(|s| s.to_string()).collect(), slots: slots.to_vec(), hint, panic_at: None, loose: None };
-    let pieces = |p: &[&str]| Pieces { pieces: p.iter().map(|s| s.to_string()).collect(), err_at: None, panic_at: None };
+    let it = |kind, items: &[&str], slots: &[u8], hint| IterSpec { kind, items: items.iter().map(|s| s.to_string()).collect(), slots: slots.to_vec(), hint, panic_at: None, loose: None, fx: None };
+    let pieces = |p: &[&str]| Pieces { pieces: p.iter().map(|s| s.to_string()).collect(), err_at: None, panic_at: None, fx: None };
     for state in 0..N_STATES {
         let (prefix, _) = state_prefix(state);
         let mut ops: Vec<Op> = Vec::new();
         for mask in [u64::MAX, 0x5555_5555_5555_5555, u64::MAX - 1, 0] {
-            ops.push(Op::Retain { slot: 0, r: RetainSpec { mask, panic_at: None }, try_: mask % 2 == 0 });
+            ops.push(Op::Retain { slot: 0, r: RetainSpec { mask, panic_at: None, fx: None }, try_: mask % 2 == 0 });
         }
         for hint in [None, Some(3usize), Some(usize::MAX), Some(1 << 60), Some(40)] {
             for (kind, items) in [
